@@ -60,7 +60,9 @@ pub fn shape(name: &str, r: &mut Rng) -> Shape {
         p_dominated: 0.1,
         alternate: false,
         lopsided_root: false,
-        pay_scale: *r.pick(&[1e-3, 1.0, 1.0, 1.0, 1e3]),
+        // ordinary magnitudes mostly; a tenth of the games live at extreme (still finite, still
+        // exactly scalable) magnitudes so that nothing silently depends on the unit of the payoffs
+        pay_scale: *r.pick(&[1e-3, 1.0, 1.0, 1.0, 1e3, 1e-3, 1.0, 1.0, 1.0, 1e3, 1e-3, 1.0, 1.0, 1.0, 1e3, 1.0, 1e-30, 1e-18, 1e18, 1e30]),
         decimal_payoffs: false,
         integer_payoffs: false,
         integer_weights: false,
@@ -215,7 +217,9 @@ impl G<'_> {
                             1.0 + wr.below(5) as f64
                         }
                     } else if rare && i == 0 && n > 1 {
-                        1e-3
+                        // mostly 1e-3; sometimes so unlikely that everything below it has a
+                        // reach far under the machine epsilon
+                        *wr.pick(&[1e-3, 1e-3, 1e-3, 1e-3, 1e-9, 1e-18])
                     } else {
                         0.2 + wr.f()
                     }
